@@ -2,10 +2,24 @@
 
 package goat
 
-import "time"
+import (
+	"context"
+	"time"
+)
 
 // VerifClientRegistered: registered calls/streams of a client connection.
 func VerifClientRegistered(cc *ClientConn) int { return cc.mp.VerifRegistered() }
+
+// VerifClientCtx: the client connection's own context (what per-call hooks register on).
+func VerifClientCtx(cc *ClientConn) context.Context { return cc.mp.VerifCtx() }
+
+// VerifServerCtx: the connection context of a tracked server handler object.
+func VerifServerCtx(obj any) context.Context {
+	if h, ok := obj.(*handler); ok {
+		return h.ctx
+	}
+	return nil
+}
 
 // VerifServerStreams: registered streams of a tracked server handler object
 // (simhook kind "server.handler"), -1 if the lock is held, -2 if obj is not one.
